@@ -1,5 +1,6 @@
 """C16 engine extensions (all trusted, listed in props/C16.py TRUSTED):
-  1. install(): constants imported from another repo module; tuple(seq) of symbolic length   (opt-in, C16 contracts only)
+  1. install(): constants imported from another repo module; tuple(seq) of symbolic length; line-free names of
+     callee-precondition obligations   (opt-in, C16 contracts only)
   2. ref_attr hook: reading `Configuration.selections` (property with a setter) = the private list + class invariant
   3. LIBSPEC random.choices(population, k=K)
 
@@ -47,6 +48,20 @@ def install():
             return L.BUILTINS['list'](ex, st, args, kw, node)
 
     L.BUILTINS['tuple'] = b_tuple
+
+    # stable obligation names: the engine names callee preconditions `pre@callsite:<callee>:<label>@L<line>`; a line
+    # number changes with any edit above the call, which the baseline's vacuity guard then reports as a vanished
+    # obligation.  For C16 the `@L<line>` suffix is dropped (several call sites of one callee in one function get
+    # the usual #1, #2 suffixes in source order); the line is still recorded in the obligation's `line` field.
+    import re
+    orig_goal = SE.Executor.spec_goal
+
+    def spec_goal(self, st, kind, label, src, env, line=0, note='', witness=None):
+        if kind == 'pre@callsite':
+            label = re.sub(r'@L\d+$', '', label)
+        return orig_goal(self, st, kind, label, src, env, line=line, note=note, witness=witness)
+
+    SE.Executor.spec_goal = spec_goal
     _DONE = True
 
 
